@@ -71,13 +71,14 @@ impl IndexMap<DFAId, usize> {
 impl DFA {
     /// ASSUMED (not verified): get_all_literals numbers the literal symbols of the pool, longest
     /// first, from the shell's index base; what the table builders need of it is that every literal
-    /// transition's (text, description-or-empty) pair is listed, each pair once. (Its order and ids
+    /// transition's (text, description-or-empty) pair is listed. (Not: each pair once -- a literal used
+    /// with an explicit empty description and without one is listed twice; an earlier version of this
+    /// stand-in assumed distinctness, which no proof used and which is false: `cmd a "" b | c a;`.) (Its order and ids
     /// are compared with an independent computation by the bounded stand-in of C04.)
     #[verifier::external_body]
     fn get_all_literals(&self, array_start: usize) -> (r: Vec<(LiteralId, Ustr, Ustr)>)
         ensures
             forall|q: u32, id: InpId, t: (Ustr, Ustr, u32)| #[trigger] lit_entry(*self, q, id, t) ==> listed(r@, t.0, t.1),
-            forall|i: int, j: int| 0 <= i < j < r@.len() ==> !((#[trigger] r@[i]).1 == (#[trigger] r@[j]).1 && r@[i].2 == r@[j].2),
     { unimplemented!() }
 
     /// the any-word transitions (a filter_map over iter_transitions): the vector of what it yields
